@@ -259,6 +259,17 @@ struct LineObs {
     fonts: Vec<u32>,
 }
 
+/// The spelling suggestion of an "undefined control sequence" error ("did you mean \\x?") is
+/// chosen among equally close candidates in HashMap iteration order: it differs between two
+/// identical uninterrupted runs (observed: \\def vs \\gdef), so it says nothing about the
+/// checkpoint and is not compared.
+fn normalise_rendered(r: &str) -> String {
+    r.lines()
+        .filter(|l| !l.contains("did you mean"))
+        .collect::<Vec<_>>()
+        .join("\n")
+}
+
 fn run_line(vm: &mut VM<VState>, k: usize, line: &str) -> LineObs {
     let before = vm.state.mon.recovered.get();
     let o = vstate::run(vm, &format!("l{k}.tex"), line);
@@ -274,7 +285,7 @@ fn run_line(vm: &mut VM<VState>, k: usize, line: &str) -> LineObs {
         out,
         err: match o {
             vstate::Outcome::Ok => None,
-            vstate::Outcome::Err { title, rendered } => Some((title, rendered)),
+            vstate::Outcome::Err { title, rendered } => Some((title, normalise_rendered(&rendered))),
         },
         recovered: vm.state.mon.recovered.get() - before,
         fonts,
